@@ -4,7 +4,7 @@ import json
 from fractions import Fraction
 
 import vlib
-from vlib import cz, cstr, clist, copt, cbool
+from vlib import cz, cstr, clist, copt, cbool, cnat
 
 DOC_ORDER = ['highest', 'syntax', 'mistakes', 'instructor', 'algorithmic', 'runtime', 'student', 'specification',
              'positive', 'instructions', 'uncategorized', 'lowest']
@@ -491,6 +491,44 @@ def correspondence(ctx):
             continue
         items.append(term)
         idx.append(ci)
+    # the sectional resolver: per group of the triggered feedback (C01 only)
+    if ctx.pid == 'C01':
+        sitems, sidx = [], []
+        for ci, (case, out) in enumerate(zip(cases, res['cases'])):
+            sec = out.get('sectional')
+            if not isinstance(sec, list) or 'raise' in out['simple']:
+                continue
+            gid = {}
+            for x in out['active']:
+                gid.setdefault(repr(x.get('parent')), len(gid))
+            try:
+                tagged = clist(['(%s, %s)' % (cnat(gid[repr(x.get('parent'))]), coq_fb(x)) for x in out['active']])
+                obs = []
+                ok = True
+                for g, fin in sec:
+                    if repr(g) not in gid or 'raise' in fin:
+                        ok = False
+                        break
+                    if not rounding_safe({'simple': fin}):
+                        ok = False
+                        break
+                    obs.append('(%s, %s)' % (cnat(gid[repr(g)]), coq_expected({'simple': fin, 'full': {}})))
+            except ValueError:
+                continue
+            if not ok:
+                ctx.count('sectional:skipped')
+                continue
+            sitems.append('(%s, %s, %s)' % (tagged, clist([coq_call(c) for c in case['suppress']]), clist(obs)))
+            sidx.append(ci)
+            ctx.count('sectional-groups=%d' % min(len(sec), 4))
+        sbad = ctx.coq_cases('sectional', HEADER, sitems, 'check_sectional', chunk=150)
+        for kind, i, detail in sbad[:5]:
+            ci = sidx[i] if kind == 'mismatch' else None
+            ctx.broken.append(('correspondence', 'resolver:sectional-model-vs-implementation',
+                               json.dumps({'case': cases[ci] if ci is not None else None,
+                                           'impl': res['cases'][ci].get('sectional') if ci is not None else None, 'detail': detail})[:4000]))
+        ctx.obligation('correspondence:sectional(model agrees with sectional.resolve group by group, %d reports)' % len(sitems), not sbad,
+                       '%d disagreeing cases' % len(sbad))
     bad = ctx.coq_cases('resolve', HEADER, items, 'check_resolve', chunk=150)
     for kind, i, detail in bad[:5]:
         ci = idx[i] if kind == 'mismatch' else None
